@@ -147,7 +147,7 @@ func runC20(c *fw.Ctx) {
 	}
 	seen := map[string]bool{}
 	fr := freshDecls()
-	docSets(!c.Quick(), func(name string, blocks []doc.Block) {
+	body := func(name string, blocks []doc.Block) {
 		if c.Expired() {
 			return
 		}
@@ -204,6 +204,26 @@ func runC20(c *fw.Ctx) {
 				return localityDiff(e, baseE, adds) != ""
 			}) {
 				sig := "C20:" + kind + ":" + strings.SplitN(what, "@", 2)[0] + ":" + firstWordsN(bad, 3)
+				if o.OK() {
+					// one known pattern is told apart from everything else by WHAT changes: the only change
+					// outside the added / removed entries is an indirect allOf ancestor appearing in or
+					// vanishing from the usedUserTypes list of an heir (the open C10 finding, seen from here)
+					if e, err := catalogEntries(o); err == nil {
+						small, big := baseE, e
+						if kind != "insert" {
+							small, big = e, baseE
+						}
+						cut := map[string]string{}
+						for k := range small {
+							if v, ok := big[k]; ok {
+								cut[k] = v
+							}
+						}
+						if len(cut) == len(small) && allOfAncestorLeakOnly(small, cut) {
+							sig = "C20:usedUserTypes:allOf-ancestor-leak"
+						}
+					}
+				}
 				c.Violate("non-local-effect", sig, fmt.Sprintf("document %s, %s %s: %s", name, kind, what, bad),
 					map[string]interface{}{"doc": name, "base_text": key, "edited_text": text})
 			}
@@ -350,6 +370,18 @@ func runC20(c *fw.Ctx) {
 				}
 			}
 			judge("delete", fmt.Sprintf("%s@%d", b.Name, bi), text, nil, nil, removed, o)
+		}
+	}
+	docSets(!c.Quick(), func(name string, blocks []doc.Block) {
+		body(name, blocks)
+		// the same selection with its declarations in the reverse order (everything is used before
+		// it is declared): an accepted document like any other
+		if len(blocks) >= 2 {
+			rev := make([]doc.Block, len(blocks))
+			for i, b := range blocks {
+				rev[len(blocks)-1-i] = b
+			}
+			body(name+" reversed", rev)
 		}
 	})
 }
